@@ -11,10 +11,10 @@ ALL5 = ["e0.f", "e0.p", "e1.f", "e1.p", "c0"]
 
 def _cls_opts(ltag, quick, extra=()):
     if ltag == "M":
-        return ["mixed"] if quick else ["mixed", "pure", "degenerate"]
+        return ["mixed"] if quick else ["mixed", "pure", "degenerate", "classical"]
     if ltag == "L":
         return ["basis"]
-    return (["pure"] if quick else ["pure", "neg", "product"]) + list(extra)
+    return (["pure"] if quick else ["pure", "neg", "product", "ghz"]) + list(extra)
 
 
 def _cell(spec, tag, ltag, cls, contraction, seed, action, **kw):
@@ -307,7 +307,7 @@ def resize_cells(tier: str, seed: int):
                         n += 1
                         if quick and n % 4 != 0:
                             continue
-                        clss = {"V": ["pure", "lowfock"], "M": ["mixed", "mixedlow"], "L": ["basis"]}[ltag]
+                        clss = {"V": ["pure", "lowfock", "ghz"], "M": ["mixed", "mixedlow", "classical"], "L": ["basis"]}[ltag]
                         for cls in clss:
                             spec = LY.make_spec(blocks, levels, {}, default_level=dl, default_cls=cls, bystander=(n % 6 == 0))
                             cells.append(_cell(spec, tag, ltag, cls, True, seed,
